@@ -70,6 +70,10 @@ def judge_locus(g, rin, rout, direction):
     if direction == "u2s":
         if rout.is_stable() is False:
             bad.append(("format", "output of --format stable is not in stable coordinates"))
+        elif rgfa.parse_stable_path(rout.path) is None:
+            ctg = g.contigs().get(rout.path)
+            if ctg is None or ctg[0] != 0:
+                bad.append(("bare-non-reference-contig", f"the output path is the bare name {rout.path!r}, which is not a rank-0 (reference) contig; only a reference contig may stand for a whole path"))
     else:
         if rout.is_stable():
             bad.append(("format", "output of --format unstable is not in unstable coordinates"))
@@ -144,3 +148,18 @@ def gfa_text(g, L):
     if L.scale == 1:
         return g.text()
     return "".join(l.line() + "\n" for l in g.links) + "".join(x.line() + "\n" for x in reversed(list(g.segs.values())))
+
+
+def prime_with_sibling(scratch, L, maxlen=2):
+    """Before a layout is checked, both conversions are run once in this process on a sibling graph (same contigs and
+    intervals, differently named segments): a result must not depend on what an earlier call has seen."""
+    sib = L.sibling()
+    g = sib.graph("complete")
+    gpath = os.path.join(scratch, "sibling.gfa")
+    fw.write_text(gpath, g.text())
+    recs = [r for r, st in records_for(g, sib, min(maxlen, 2))][:400]
+    if not recs:
+        return
+    view_convert(scratch, "".join(r.line() + "\n" for r in recs), gpath, "stable", "sib1")
+    srecs = [rgfa.to_stable_model(g, r) for r in recs]
+    view_convert(scratch, "".join(r.line() + "\n" for r in srecs), gpath, "unstable", "sib2")
